@@ -48,7 +48,9 @@ ASSUMPTIONS = [
     "2e-7*scale, for well-conditioned order-4 band-pass designs near the guard)",
     "linearity records: float64 / int64 / list / strided or read-only views, equal length min..3000, |alpha|, |beta| in [1e-3, 1e3] or "
     "powers of two; gibbs_extra omitted / 1 / 2; gibbs_range omitted / 1 / 7 / 50 / 200 / 1e5 (longer than the record: the mean of "
-    "the whole record); narrow integer and single-precision records are handled centrally (brief addendum), not here",
+    "the whole record); records also come as int16 / int32 / int8 containers using the dtype's full range (gen.narrow_int; oracle at the "
+    "exact integer values) in butter-linear, detrend, add (record, added series / signal, constants that overflow the dtype) and "
+    "running-average; single-precision records are handled centrally, not here",
     "'cut-offs may be given as list, tuple or array' and 'what numpy prints is no input': the outputs of two spellings / two process "
     "states agree to 8*eps*(kappa+4)*A (an implementation may order the arithmetic differently for an array-valued cut-off)",
     "cut-offs 'as array' for low / high pass are object arrays [None, f] / [f, None] (the only way to spell a missing cut-off in an ndarray)",
@@ -107,9 +109,17 @@ def _build(spec):
     return np.ascontiguousarray(a * 10.0 ** spec.get("amp", 0), dtype=float)
 
 
+NARROW = tuple(gen.NARROW_DTYPES)  # int16 / int32 / int8 containers: raw digitiser counts using the dtype's full range
+_ALLOW = ["int", "list", "int", "list", "view", "negstride", "readonly", "int16", "int32", "int8", "int16"]
+
+
 def _container(spec, a):
     if spec.get("as") == "intlist":
         return [int(v) for v in np.round(a)]  # a list of Python integers, e.g. digitiser counts
+    if spec.get("as") in NARROW:
+        return gen.narrow_int(a, spec["as"])[0]  # scaled to the full range of the dtype, most negative sample = its minimum
+    if str(spec.get("as", "")).endswith("-raw"):
+        return np.array(np.round(a), dtype=spec["as"][:-4])  # hand-written cases: the values as they are, in the narrow dtype
     return gen.as_container(spec, a)
 
 
@@ -594,8 +604,8 @@ def _linear_cases(draw):
     nmin = _min_len(order, cut)
     n = draw(st.one_of(st.integers(nmin, nmin + 12), st.integers(nmin, 64), st.integers(32, 400), st.integers(32, 3000)))
     kinds = None if n <= 64 else RECIPE_KINDS
-    ra = draw(gen.record_specs(min_n=n, max_n=n, small_max=n, kinds=kinds, allow_zero_runs=False, allow_int=True))
-    rb = draw(gen.record_specs(min_n=n, max_n=n, small_max=n, kinds=kinds, allow_zero_runs=False, allow_int=True))
+    ra = draw(gen.record_specs(min_n=n, max_n=n, small_max=n, kinds=kinds, allow_zero_runs=False, allow_int=_ALLOW))
+    rb = draw(gen.record_specs(min_n=n, max_n=n, small_max=n, kinds=kinds, allow_zero_runs=False, allow_int=_ALLOW))
     for sp in (ra, rb):
         if sp.get("as") == "int" and "amp" in sp and sp["amp"] < 1:
             sp["amp"] = min(6, 1 - sp["amp"])  # keep the rounded record non-zero
@@ -685,9 +695,9 @@ def _detrend_cases(draw):
         # the shortest records a degree-k fit is determined on: n = k+1 (the fit interpolates: nothing is left), k+2, k+3
         n = k + draw(st.integers(1, 3))
         spec = draw(gen.record_specs(min_n=n, max_n=n, small_max=n, kinds=["vals", "dyadic", "noise", "walk"], allow_zero_runs=False,
-                                     allow_int=True))
+                                     allow_int=_ALLOW))
     else:
-        spec = draw(gen.record_specs(min_n=k + 4, max_n=5000, allow_int=True))
+        spec = draw(gen.record_specs(min_n=k + 4, max_n=5000, allow_int=_ALLOW))
     n = len(gen.build(spec))
     sec_kind = draw(st.sampled_from(["default", "pos", "neg", "pos"])) if n >= 2 else "pos"
     if sec_kind == "pos":
@@ -866,14 +876,21 @@ _NON_SIGNALS = ["none", "ndarray", "list", "float", "dict", "duck"]
 
 @st.composite
 def _add_cases(draw):
-    spec = draw(gen.record_specs(min_n=2, max_n=2000, allow_int=True))
+    spec = draw(gen.record_specs(min_n=2, max_n=2000, allow_int=_ALLOW))
     n = len(gen.build(spec))
     op = draw(st.sampled_from(["signal", "series", "constant", "signal", "series", "signal"]))
     case = {"rec": spec, "dt": draw(gen.dts(1e-4, 1.0)), "op": op, "self": draw(st.sampled_from(["Signal", "AccSignal"]))}
     if op == "constant":
-        case["c"] = draw(st.one_of(st.floats(-1e6, 1e6, allow_nan=False), st.integers(-1000, 1000), st.just(0.0)))
+        if spec.get("as") in NARROW:
+            # a constant that fits the record's dtype but whose sum with the record's peak does not (20000 + 20000 in int16)
+            top = int(np.iinfo(spec["as"]).max)
+            case["c"] = draw(st.sampled_from([top, top // 2 + 1, -top, -(top // 2) - 2, (top * 5) // 8, 0.5]))
+        else:
+            case["c"] = draw(st.one_of(st.floats(-1e6, 1e6, allow_nan=False), st.integers(-1000, 1000), st.just(0.0)))
         return case
     case["other"] = draw(gen.record_specs(min_n=2, max_n=2000, allow_int=False, allow_zero_runs=False))
+    if draw(st.integers(0, 3)) == 0:
+        case["other"]["as"] = draw(st.sampled_from(["int16", "int16", "int32", "int8"]))  # the added series / signal holds narrow integers
     wrong_len = draw(st.integers(0, 2)) == 0
     if wrong_len:
         case["dlen"] = draw(st.one_of(st.sampled_from([-1, 1, -n]), st.integers(-n, n))) or 1
@@ -901,7 +918,7 @@ def _add_cases(draw):
                "signal is left unchanged; a non-Signal argument is either rejected the same way or (an object / sequence that does "
                "carry matching values) added element-wise; npts and dt preserved, the added object not modified",
         require={"op=constant": 0.05, "op=series": 0.1, "op=signal": 0.2, "reject-length": 0.08, "reject-dt": 0.03,
-                 "reject-dt-near": 0.01, "non-signal": 0.03, "accepted": 0.2},
+                 "reject-dt-near": 0.01, "non-signal": 0.03, "accepted": 0.2, "narrow-int": 0.04, "other-narrow-int": 0.04},
         min_nontrivial=0.5)
 def add(case, ctx):
     spec = case["rec"]
@@ -912,7 +929,7 @@ def add(case, ctx):
     op = case["op"]
     ctx.cls("op=" + op, "self=" + case.get("self", "Signal"), "kind=" + spec["k"], gen.size_class(n))
     if spec.get("as"):
-        ctx.cls("as=" + spec["as"])
+        ctx.cls("as=" + spec["as"], "narrow-int" if spec["as"] in NARROW else None)
     make = eqsig.AccSignal if case.get("self") == "AccSignal" else eqsig.Signal
     s = ctx.lib(make, arg, dt)
     before = np.array(s.values)
@@ -952,10 +969,17 @@ def add(case, ctx):
     if m < 0:
         raise ValueError("case outside the domain of clause add")
     o = np.resize(_build(case["other"]), m) if m > 0 else np.zeros(0)
-    os_ = o.tolist()
+    o_as = case["other"].get("as")
+    if o_as in NARROW and m > 0:
+        o_c, o = gen.narrow_int(o, o_as)  # container of the narrow dtype + its exact values
+        os_ = [int(v) for v in o]
+        ctx.cls("other-narrow-int")
+    else:
+        o_c = None
+        os_ = o.tolist()
     if op == "series":
         how = case.get("as", "ndarray")
-        ser = o.copy() if how == "ndarray" else (list(os_) if how == "list" else tuple(os_))
+        ser = (o_c.copy() if o_c is not None else o.copy()) if how == "ndarray" else (list(os_) if how == "list" else tuple(os_))
         ctx.cls("series=" + how)
         if dlen != 0:
             ctx.cls("reject-length")
@@ -997,7 +1021,7 @@ def add(case, ctx):
     dt2 = dt * dtf
     if dtf != 1.0 and dt2 == dt:
         raise ValueError("case outside the domain of clause add (the scaled time step rounds to the same number)")
-    other = ctx.lib(make_o, o.copy(), dt2)
+    other = ctx.lib(make_o, o_c.copy() if (o_c is not None and len(o_c) == m) else o.copy(), dt2)
     ctx.cls("other=" + case.get("cls", "Signal"))
     if dtf != 1.0 or dlen != 0:
         ctx.cls("reject-dt" if dtf != 1.0 else None, "reject-length" if dlen != 0 else None,
@@ -1043,7 +1067,7 @@ def _avg_reference(x, h):
     return expect, tol
 
 
-_AVG_AS = ["int", "intlist", "int", "intlist", "list", "view", "negstride", "readonly"]
+_AVG_AS = ["int", "intlist", "int16", "intlist", "list", "view", "negstride", "readonly", "int16", "int32", "int8"]
 
 
 @st.composite
@@ -1064,7 +1088,7 @@ def _avg_cases(draw):
         oracle="reference model: loop over i, long-double mean of the ORIGINAL samples j with |j-i| <= floor(w/2), 0 <= j < n; "
                "tolerance (w+8) eps max|x| + n eps max|prefix sum| / window count (covers direct-mean and prefix-sum "
                "implementations); length, npts, dt preserved; the caller's record untouched",
-        require={"w>=3": 0.4, "w=1": 0.02, "w=2": 0.02, "w>n": 0.01, "even-w": 0.1, "n>64": 0.15, "integer-record": 0.05},
+        require={"w>=3": 0.4, "w=1": 0.02, "w=2": 0.02, "w>n": 0.01, "even-w": 0.1, "n>64": 0.15, "integer-record": 0.05, "narrow-int": 0.03},
         min_nontrivial=0.5)
 def running_average(case, ctx):
     spec = case["rec"]
@@ -1080,7 +1104,8 @@ def running_average(case, ctx):
     ctx.cls("w=1" if w == 1 else ("w=2" if w == 2 else "w>=3"), "even-w" if w % 2 == 0 else "odd-w", "kind=" + spec["k"],
             gen.size_class(n), "n>64" if n > 64 else None, "w>n" if w > n else None, "form=" + form)
     if spec.get("as"):
-        ctx.cls("as=" + spec["as"], "integer-record" if spec["as"] in ("int", "intlist") else None)
+        ctx.cls("as=" + spec["as"], "integer-record" if spec["as"] in ("int", "intlist") + NARROW else None,
+                "narrow-int" if spec["as"] in NARROW else None)
     ctx.nt(bool(h >= 1 and np.any(x != x[0])))
     make = eqsig.AccSignal if case.get("self") == "AccSignal" else eqsig.Signal
     arg0 = np.array(arg)
@@ -1295,7 +1320,7 @@ def _mid_detrend_enum(tier, shard, nshards):
         for k in ks:
             h = _hh(gen.run_seed(), "md", n, k)
             if i % nshards == shard:
-                as_ = [None, None, "int", "list", "view"][(h >> 4) % 5] if n <= 400000 else None
+                as_ = [None, "int16", "int", "list", "view", None][(h >> 4) % 6] if n <= 400000 else None
                 rs = np.random.RandomState(int(h % (2 ** 31 - 1)))
                 sec = [None, int(1 + (h >> 20) % n), -int(1 + (h >> 20) % (n - 1)), int(n)][(h >> 12) % 4]
                 yield {"rec": _mid_spec(n, "md%d" % k, as_=as_, amp=(2 if as_ == "int" else 0)), "k": k, "dt": _MID_DTS[h % 4],
@@ -1323,11 +1348,11 @@ def _mid_add_enum(tier, shard, nshards):
         for op in ("constant", "series", "signal", "series-bad", "signal-bad"):
             h = _hh(gen.run_seed(), "ma", n, op)
             if i % nshards == shard:
-                as_ = [None, None, "int", "list", "intlist"][(h >> 4) % 5] if n <= 400000 else None
+                as_ = [None, "int16", "int", "list", "intlist", "int32"][(h >> 4) % 6] if n <= 400000 else None
                 case = {"rec": _mid_spec(n, "ma" + op, as_=as_, amp=(2 if as_ in ("int", "intlist") else 0)), "dt": _MID_DTS[h % 4],
                         "op": op.split("-")[0], "self": ["Signal", "AccSignal"][(h >> 8) % 2]}
                 if op == "constant":
-                    case["c"] = [0.37, -1234.5, 7][(h >> 12) % 3]
+                    case["c"] = [0.37, -1234.5, 7][(h >> 12) % 3] if as_ not in NARROW else int(np.iinfo(as_).max * 5 // 8)
                 else:
                     case["other"] = _mid_spec(n, "mao" + op)
                     case["dlen"] = 0 if not op.endswith("bad") or (op == "signal-bad" and (h >> 20) % 2) else [-1, 1, -n // 2][(h >> 12) % 3]
@@ -1362,7 +1387,7 @@ def _mid_avg_enum(tier, shard, nshards):
             w = 1 + (h >> 4) % 25
             if w == 1:
                 w = 3
-            as_ = [None, None, "int", "intlist", "view"][(h >> 12) % 5] if n <= 100000 else None
+            as_ = [None, "int16", "int", "intlist", "view", "int32"][(h >> 12) % 6] if n <= 100000 else None
             yield {"rec": _mid_spec(n, "mv", as_=as_, amp=(2 if as_ in ("int", "intlist") else 0)), "dt": _MID_DTS[h % 4], "w": int(w),
                    "form": ["kw", "pos"][(h >> 20) % 2], "self": ["Signal", "AccSignal"][(h >> 24) % 2]}
         i += 1
